@@ -330,12 +330,15 @@ def _n_sessions(ch, fixed):
 
 
 @st.composite
-def structures(draw, layout, tname=None, big=False):
+def structures(draw, layout, tname=None, big=False, overrides=None):
     ch = HypChooser(draw)
     if tname is None:
         tname = ch.choice(layout.non_union_types())
     b = Builder(layout, ch, big)
-    toks = b.build(tname, "")
+    if overrides:
+        toks = b.struct(tname, "", 0, overrides=overrides)
+    else:
+        toks = b.build(tname, "")
     return Case(tname, toks, layout, meta=b.meta())
 
 
@@ -406,3 +409,29 @@ def messages(draw, layout, big=False):
     if which <= 3:
         return draw(commands(layout, big=big))
     return draw(responses(layout, big=big))
+
+
+def selector_points(layout):
+    """All (struct type, selector field, selector value) triples: every way a union arm can be selected."""
+    out = []
+    for sname in sorted(layout.snap["structs"]):
+        s = layout.snap["structs"][sname]
+        for sf in sorted(set(s.get("selectors", {}).values())):
+            stype = layout.field_type(sname, sf)
+            for lo, hi in layout.allowed(stype):
+                if hi - lo > 256:
+                    continue
+                for v in range(lo, hi + 1):
+                    out.append((sname, sf, v))
+    return out
+
+
+def reachable_arms(layout):
+    arms = set()
+    for sname, sf, v in selector_points(layout):
+        s = layout.struct(sname)
+        for uf, f in s["selectors"].items():
+            if f == sf:
+                ut = layout.field_type(sname, uf)
+                arms.add((ut, layout.select(ut, v)))
+    return arms
